@@ -208,8 +208,7 @@ let () =
              Printf.printf "MISMATCH %s ctts_table of the history is not the case's ctts table\n" id
            else if kind = "V" && stsc_rows_of f2 <> stsc_table h.stsc_rows0 h.stsc_calls then
              Printf.printf "MISMATCH %s stsc_table of the history is not the case's stsc table\n" id
-           else if kind = "V" && not (L.for_all (fun r -> nz (snd r)) h.stsc_rows0 && L.for_all stsc_call_ok h.stsc_calls
-                                      && C09Spec.raw_ok (stsc_table h.stsc_rows0 h.stsc_calls)
+           else if kind = "V" && not (C09Spec.raw_ok (stsc_table h.stsc_rows0 h.stsc_calls)
                                       && rows_ok (stsc_table h.stsc_rows0 h.stsc_calls) (C09Spec.nchunks tb)) then
              Printf.printf "MISMATCH %s builder-hypotheses model=false (generator promised a history within C09_builder_consistent)\n" id
            else begin
